@@ -16,6 +16,8 @@ class Ctx:
         self.state = self.prog.cls('State')
         self.eff = Effects(self.prog, self.state)
         self._paths: dict = {}
+        from .match import Matcher
+        self.m = Matcher(self.prog)
 
     def fi(self, qualname: str) -> FuncInfo:
         return self.prog.func(qualname)
